@@ -9,6 +9,10 @@ import (
 	"github.com/spf13/cobra"
 )
 
+// minimum frequency of the bipartitions kept by the consensus (own variable: the default of
+// a variable shared with another command is overwritten by that command's registration)
+var consensusCutoff float64
+
 // consensusCmd represents the consensus command
 var consensusCmd = &cobra.Command{
 	Use:   "consensus",
@@ -45,7 +49,7 @@ In the output consensus tree:
 			return
 		}
 		defer treefile.Close()
-		consensus, err = tree.Consensus(treechan, cutoff)
+		consensus, err = tree.Consensus(treechan, consensusCutoff)
 		if err != nil {
 			io.LogError(err)
 			return
@@ -59,5 +63,5 @@ func init() {
 	computeCmd.AddCommand(consensusCmd)
 	consensusCmd.PersistentFlags().StringVarP(&intreefile, "input", "i", "stdin", "Input tree")
 	consensusCmd.PersistentFlags().StringVarP(&outtreefile, "output", "o", "stdout", "Output file")
-	consensusCmd.PersistentFlags().Float64VarP(&cutoff, "freq-min", "f", 0.5, "Minimum frequency to keep the bipartitions")
+	consensusCmd.PersistentFlags().Float64VarP(&consensusCutoff, "freq-min", "f", 0.5, "Minimum frequency to keep the bipartitions")
 }
